@@ -82,6 +82,19 @@ def gen_spec(rng, wide_times=False):
     return {"s": s, "std": std, "dst": dst, "sr": sr, "st": 7200 if st is None else st, "er": er,
             "et": 7200 if et is None else et, "south": south}
 
+def gen_norule_spec(rng):
+    """a TZ string WITHOUT a rule part: dateutil's documented default applies (first Sunday of April 02:00 standard time to the last
+    Sunday of October 02:00 DAYLIGHT time, whatever the saving); the daylight offset is explicit and mostly NOT standard + 1 h"""
+    std = rng.choice([-43200, -36000, -18000, -12600, -3600, 0, 3600, 19800, 34200, 37800, 43200])
+    save = rng.choice([7200, 7200, 1800, 1800, 1200, 5400, 3600, 10800, 900])
+    dst = std + save
+    sty = rng.randint(0, 11)
+    explicit = not (save == 3600 and rng.random() < 0.5)
+    s = "AAA%sBBB%s" % (off_str(std, sty), off_str(dst, sty + 1) if explicit else "")
+    return {"s": s, "std": std, "dst": dst, "sr": ("M", 4, 1, 0), "st": 7200, "er": ("M", 10, 5, 0), "et": 7200, "south": False, "norule": True}
+
+NORULE_STRINGS = ["EST5EDT3", "EST5EDT", "LHST-10:30LHDT-11", "AAA-2BBB-2:20", "AAA3BBB1", "AAA0BBB-0030", "NST3:30NDT1:30", "CET-1CEST-3", "AAA+11BBB+09"]
+
 def spelling_family(s):
     """the spelling families of C08.tzstr_render_partial present in a generated string (for the evidence)"""
     import re
@@ -237,8 +250,10 @@ def is_ascii_model_domain(s):
 def correspondence(ctx):
     basecorr.run(ctx)
     rng = ctx.subrng("corr")
-    strings = list(FIXED_STRINGS)
+    strings = list(FIXED_STRINGS) + list(NORULE_STRINGS)
     n = ctx.budget(1500, 40000)
+    for _ in range(n // 25):
+        strings.append(gen_norule_spec(rng)["s"]); ctx.count("norule_strings")
     for _ in range(n // 3):
         gs = gen_spec(rng, wide_times=True)["s"]
         strings.append(gs)
@@ -492,7 +507,11 @@ def oracle(ctx):
     nspecs = ctx.budget(90, 3000)
     years = (2019, 2020, 2021)
     for k in range(nspecs):
-        spec = gen_spec(rng, wide_times=(k % 5 == 0))
+        spec = gen_norule_spec(rng) if k % 6 == 5 else gen_spec(rng, wide_times=(k % 5 == 0))
+        if spec.get("norule"):
+            ctx.count("specs_without_rule_part")
+            if spec["dst"] - spec["std"] != 3600:
+                ctx.count("specs_without_rule_part_saving_not_1h")
         instants = probe_instants(spec, years, 37 if k % 4 == 0 else 0)
         expect = ctx.driver(posix_query(spec, [u for u, _ in instants]))
         with warnings.catch_warnings():
@@ -619,14 +638,29 @@ KNOWN = {
     # implementation itself computed, between it and the POSIX transition), not merely the input class
     "D-C08-time-before-weekday": lambda v: v["case"].get("kind") == "posix" and v["case"].get("d_c08") is True
         and v["case"].get("zone") in ("tzstr", "tzrange"),
-    # characters outside the grammar adjacent to an abbreviation run are absorbed into the abbreviation
-    "D-C08b-unknown-char-in-abbr": lambda v: v["case"].get("kind") == "malformed" and v["case"].get("class") == "unknown-char"
-        and v["case"].get("outcome") == "accepted" and (v["case"].get("absorbed_into_abbr") is True or _is_unicode_digit_offset(v["case"])),
+    # (D-C08b-unknown-char-in-abbr was repaired: pending_fixes/D-C08b-unknown-char-in-abbr.diff; the malformed stream of the oracle —
+    # a stray character inserted at every position of generated strings, non-ASCII digits in offsets — reports it again if it returns)
 }
 
 def replay(ctx, payload):
     from dateutil import tz
     c = payload["violation"]["case"]
+    if c.get("kind") in ("history", "threads"):
+        import tzshared as S
+        from dateutil import relativedelta as rd
+        print(payload["violation"]["what"])
+        s = c["s"]
+        fresh = lambda: tz.tzstr.instance(s)
+        if c.get("overflowing_rules"):
+            sp = c["spec"]
+            fresh = lambda: tz.tzrange("AAA", sp["std"], "BBB", sp["dst"],
+                                       rd.relativedelta(hours=+2, month=3, day=8, weekday=rd.SU(+1)) if not sp["south"] else rd.relativedelta(hours=+30, month=12, day=31),
+                                       rd.relativedelta(hours=+30, month=12, day=31) if not sp["south"] else rd.relativedelta(hours=-3, month=1, day=1, weekday=rd.SU(+1)))
+        with warnings.catch_warnings():
+            warnings.simplefilter("ignore")
+            if c["kind"] == "history":
+                return S.replay_history(fresh(), fresh, c["history_wire"])
+            return S.replay_threads(fresh, fresh, _range_funcs(), None, c)
     if c.get("kind") == "posix":
         sp = dict(c["spec"]); sp["s"] = c["s"]; sp["sr"] = tuple(sp["sr"]); sp["er"] = tuple(sp["er"])
         u = datetime.datetime.fromisoformat(c["utc"])
@@ -666,3 +700,117 @@ TRUSTED = TRUSTED + [
 TRUSTED = TRUSTED + [
     "tzlocal translator tie: `time.localtime(u).tm_isdst` and `time.timezone` are named primitives (Model/ObjPy.lean: localtimeIsdst = the zone model's yearly-rule predicate localNaiveIsdst at u + stdoffset with the fraction floored, timeTimezone = -stdoffset); `getattr(dt, 'fold', None)` is the fold (Python >= 3.6); exercised against tz.tzlocal() under several TZ settings on every run",
 ]
+
+# --- ONE ZONE OBJECT, MANY CALLS (wt-tzrule): tzstr objects are process-wide singletons, so whatever a lookup leaves behind on the
+# object is seen by every later lookup of any thread.  harness/tzshared.py: history stream, two-thread schedule stream, AST audit.
+def _range_funcs():
+    from dateutil import tz
+    from dateutil.tz import _common as C
+    fs = [tz.tzrange.transitions]
+    for name in ("utcoffset", "dst", "tzname", "fromutc", "is_ambiguous", "_isdst", "_naive_isdst", "_find_last_transition"):
+        f = getattr(C.tzrangebase, name, None)
+        if f is not None and hasattr(f, "__code__"):
+            fs.append(f)
+        elif f is not None and hasattr(f, "__wrapped__"):
+            fs.append(f.__wrapped__)
+    for cls in (tz.tzstr, tz.tzrange):       # methods the subclasses define themselves (a memo in an override is in reach as well)
+        for name, f in vars(cls).items():
+            if hasattr(f, "__code__") and name not in ("__init__", "__repr__", "__eq__", "_delta") and f not in fs:
+                fs.append(f)
+    return fs
+
+def _year_queries(z, y, rng, n=2):
+    """lookups of year y that depend on that year's transitions: walls within the hour around both transitions, both folds"""
+    qs = []
+    tr = z.transitions(y)
+    if tr is None:
+        return [("wall", datetime.datetime(y, 6, 1, 12), 0)]
+    for t in tr:
+        for _ in range(n):
+            d = rng.choice([-3600, -1800, -1, 0, 1, 1799, 1800, 3599, 3600, 5400])
+            w = t + datetime.timedelta(seconds=d)
+            qs.append(("wall", w, rng.randint(0, 1)))
+        qs.append(("utc", t + datetime.timedelta(seconds=rng.choice([-7200, -60, 0, 60, 7200]))))
+    qs.append(("trans", y))
+    return qs
+
+def oracle_shared(ctx):
+    import tzshared as S
+    from dateutil import tz, relativedelta as rd
+    rng = ctx.subrng("shared")
+    funcs = _range_funcs()
+    done = 0
+    tries = 0
+    want = ctx.budget(5, 40)
+    while done < want and tries < 20 * want:
+        tries += 1
+        spec = gen_spec(rng)
+        if in_d_c08(spec) or "M" not in (spec["sr"][0], spec["er"][0]):
+            continue          # the transition dates must differ from year to year, or a stale year cannot show
+        s = spec["s"]
+        with warnings.catch_warnings():
+            warnings.simplefilter("ignore")
+            try:
+                shared = tz.tzstr(s)                     # THE process-wide object for this string
+                fresh = lambda s=s: tz.tzstr.instance(s)
+                fresh()
+            except Exception:
+                continue
+            done += 1
+            case = {"zone": "tzstr", "s": s}
+            years = rng.sample(range(1990, 2040), 14)
+            hist = []
+            for y in years:
+                hist += _year_queries(fresh(), y, rng)
+            hist += [("trans", 10000), ("trans", 0), ("wall", datetime.datetime(9999, 12, 31, 23, 30), 1), ("wall", datetime.datetime(1, 1, 1, 0, 10), 0)]
+            for y in rng.sample(years, 8) + years[:3]:
+                hist += _year_queries(fresh(), y, rng, n=1)
+            if not S.history(ctx, "tzstr-singleton", shared, fresh, hist, case):
+                continue
+            # the equivalent tzrange with rules that overflow in year 9999 and underflow in year 1
+            mk = lambda spec=spec: tz.tzrange("AAA", spec["std"], "BBB", spec["dst"],
+                                              rd.relativedelta(hours=+2, month=3, day=8, weekday=rd.SU(+1)) if not spec["south"] else rd.relativedelta(hours=+30, month=12, day=31),
+                                              rd.relativedelta(hours=+30, month=12, day=31) if not spec["south"] else rd.relativedelta(hours=-3, month=1, day=1, weekday=rd.SU(+1)))
+            zr = mk()
+            hist = []
+            for y in rng.sample(range(1990, 2040), 12):
+                hist += _year_queries(mk(), y, rng, n=1)
+            edge = [("wall", datetime.datetime(9999, 6, 1, 12), 0), ("trans", 9999), ("wall", datetime.datetime(9999, 6, 1, 12), 0), ("wall", datetime.datetime(9998, 12, 31, 22), 1),
+                    ("wall", datetime.datetime(1, 6, 1), 0), ("trans", 1), ("wall", datetime.datetime(1, 6, 1), 0), ("utc", datetime.datetime(9999, 7, 1)), ("wall", datetime.datetime(2, 1, 1), 0)]
+            hist2 = list(hist)
+            for e in edge:
+                hist2.append(e)
+                hist2 += _year_queries(mk(), rng.choice(range(1990, 2040)), rng, n=1)[:2]
+            hist2 += hist[:10]
+            if not S.history(ctx, "tzrange-raising", zr, mk, hist2, {"zone": "tzrange", "s": s, "overflowing_rules": True, "spec": {"std": spec["std"], "dst": spec["dst"], "south": spec["south"]}}):
+                continue
+            # two threads on one object, pre-empted at every statement of transitions / _isdst / _naive_isdst / utcoffset / ...
+            if done > ctx.budget(2, 12):
+                continue
+            y0, y1 = rng.sample(range(2000, 2030), 2)
+            f = fresh()
+            offq = lambda y, k: [("off",) + q[1:] for q in _year_queries(f, y, rng, n=2) if q[0] == "wall"][:k]
+            warm = offq(y0, 1)
+            qa, qb_same, qb_old = offq(y1, 2), offq(y1, 1), offq(y0, 1)
+            for jobs in ([qa[:1], qb_same], [qa[:1], qb_old], [qa, qb_old + qb_same]):
+                if not S.threads(ctx, "tzstr-two-threads", fresh, fresh, funcs, None, warm, jobs, dict(case, years=[y0, y1])):
+                    break
+    ctx.count("shared_object_zones", done)
+
+_oracle_without_shared = oracle
+
+def oracle(ctx):
+    _oracle_without_shared(ctx)
+    oracle_shared(ctx)
+
+_correspondence_without_audit = correspondence
+
+def correspondence(ctx):
+    _correspondence_without_audit(ctx)
+    import tzshared
+    tzshared.run_audit(ctx, ["tzrange", "tzstr", "tzrangebase", "tzlocal", "_tzinfo"])
+
+TRUSTED = TRUSTED + [
+    "one object, many calls: harness/tzshared.py — history stream on the process-wide tzstr singleton and on a tzrange whose rules overflow in year 9999 / underflow in year 1 (every answer compared with a fresh object's), two-thread statement-level schedules (sys.settrace) over transitions/_isdst/_naive_isdst/utcoffset/dst/tzname/fromutc, and an AST audit that no method of tzrange/tzstr/tzrangebase/tzlocal writes an attribute outside __init__ (C08.range_answers_pure is a statement about the translated functions, which take no state)",
+]
+# --- end of the appended block
